@@ -242,6 +242,10 @@ def wavg_expected(vals, weights, tr):
         return None
     weights = [w for w in weights if w is not None]   # None weights are skipped in the denominator
     arr = any(isinstance(x, np.ndarray) for p in pairs for x in p) or any(isinstance(w, np.ndarray) for w in weights)
+    if len({len(x) for x in list(vals) + list(weights) if isinstance(x, np.ndarray)}) > 1:
+        return None                       # arrays of different lengths: the code raises ValueError
+    if tr == "TExpLog" and arr and not all(isinstance(v, np.ndarray) for v in vals):
+        return None                       # np.exp of a ragged list raises
     if arr:
         f = (lambda x: np.exp(np.asarray(x, dtype=float))) if tr == "TExpLog" else (lambda x: np.asarray(x, dtype=float))
         num = sum((f(v) * np.asarray(w, dtype=float) for v, w in pairs), 0.0)
